@@ -74,7 +74,7 @@ class MessageToUserTlv(AbstractTlvBase):
     def unpack(cls, data: bytes) -> MessageToUserTlv:
         msg_to_user_tlv = cls.__empty()
         msg_to_user_tlv.tlv = CfdpTlv.unpack(data)
-        msg_to_user_tlv.check_type(MessageToUserTlv.TLV_TYPE)
+        msg_to_user_tlv.tlv.check_type(MessageToUserTlv.TLV_TYPE)
         return msg_to_user_tlv
 
     @classmethod
